@@ -1,8 +1,9 @@
 ------------------------------ MODULE FaultTrace ------------------------------
 (* Acceptor for recordings of the real integration (C18).  A case:                             *)
 (*  [id, entry, sub, units (FaultCore program), entry_unit,                                     *)
-(*   cpy  : report parts of CPython's own traceback for the same source (<<>> when the case has  *)
-(*          no CPython run),                                                                    *)
+(*   cpy  : report parts of CPython's own traceback for the same source, cpy_raised : CPython    *)
+(*          raised at all (FALSE: the program handles the fault itself - FaultCore!Escapes must   *)
+(*          say the same),                                                                      *)
 (*   obs  : << [cls, start, parts] >>  tracebacks pyscript logged in the faulty step; cls =      *)
 (*          class of the logger ("own": the script's logger or one below it, "module": the own   *)
 (*          logger of a module whose load failed, "integration": another logger of the          *)
@@ -12,8 +13,9 @@
 (*          normally; done = completed runs of the entry's function; own / module / integration  *)
 (*          = number of records carrying an exception report per logger class; foreign = error   *)
 (*          records outside the integration + unhandled-exception callbacks of the event loop,   *)
-(*   by_same, by_other : runs of the bystander functions (event trigger, service, state trigger)  *)
-(*          the same file defines above the entry / of functions in two other files afterwards;  *)
+(*   by_same_min, by_same_max, by_other : runs of the bystander functions (event trigger, service, *)
+(*          state trigger; least / most of the three) the same file defines above the entry / of  *)
+(*          functions in two other files afterwards;                                             *)
 (*          left = number of registrations of those (service, bus listener, state subscription)  *)
 (*          still present - after a load-time fault there must be none and none may run,         *)
 (*   main_loaded : the script's global context exists afterwards, nmodfail : number of modules   *)
@@ -25,29 +27,42 @@ Cases == JsonDeserialize(IOEnv.CASES)
 
 FlagSet == { FrameFlags[i] : i \in 1..Len(FrameFlags) }
 ObsOK(cs, flags) == \A j \in 1..Len(cs.obs) : ReportEq(Expected(cs.units, cs.obs[j].start, flags), cs.obs[j].parts)
-CpyOK(cs) == Len(cs.cpy) = 0 \/ ReportEq(Expected(cs.units, cs.entry_unit, {}), cs.cpy)
-Explaining(cs) == { S \in SUBSET FlagSet : ObsOK(cs, S) }
-MinExplaining(cs) == CHOOSE S \in Explaining(cs) : \A T \in Explaining(cs) : Cardinality(S) <= Cardinality(T)
+CpyOK(cs) == IF cs.cpy_raised THEN ReportEq(Expected(cs.units, cs.entry_unit, {}), cs.cpy)
+             ELSE ~Escapes(cs.units, cs.entry_unit)
+\* the smallest set of known deviations that reproduces the observed report exactly: sets are tried by increasing size
+\* (<<FALSE, {}>> = no set of flags explains it)
+OfSize(k) == { S \in SUBSET FlagSet : Cardinality(S) = k }
+RECURSIVE MinExplainingFrom(_, _)
+MinExplainingFrom(cs, k) ==
+  IF k > Len(FrameFlags) THEN <<FALSE, {}>>
+  ELSE LET W == { S \in OfSize(k) : ObsOK(cs, S) } IN
+       IF W # {} THEN <<TRUE, CHOOSE S \in W : TRUE>> ELSE MinExplainingFrom(cs, k + 1)
 
 \* containment clauses, first failing one ("" = none)
 Faulty(cs) == { i \in 1..Len(cs.steps) : cs.steps[i].v = 0 }
 Benign(cs) == { i \in 1..Len(cs.steps) : cs.steps[i].v # 0 }
 IsLoad(cs) == cs.entry = "load"
+\* the fault leaves user code (otherwise the script handled its own error: that occurrence is like a benign one)
+Esc(cs) == Escapes(cs.units, cs.entry_unit)
+Reports(st) == st.own + st.integration + st.module
 ContainWhy(cs, flags) ==
-  LET L == CatchLayer(cs.entry, cs.sub, flags) IN
+  LET L == CatchLayer(cs.entry, cs.sub, flags)
+      esc == Esc(cs) IN
   IF \E i \in Benign(cs) : i < (CHOOSE f \in Faulty(cs) : TRUE) /\ cs.steps[i].done # 1 THEN "benign-run-missing"
-  ELSE IF \E i \in Benign(cs) : cs.steps[i].own + cs.steps[i].integration + cs.steps[i].module > 0 THEN "report-without-fault"
-  ELSE IF \E i \in Faulty(cs) : LogsOnOwnLogger(L) /\ cs.steps[i].own = 0 THEN "not-logged-on-own-logger"
+  ELSE IF \E i \in Benign(cs) : Reports(cs.steps[i]) > 0 THEN "report-without-fault"
+  ELSE IF ~esc /\ \E i \in Faulty(cs) : cs.steps[i].own + cs.steps[i].integration > 0 THEN "handled-fault-reported"
+  ELSE IF ~esc /\ ~IsLoad(cs) /\ \E i \in Faulty(cs) : cs.steps[i].done # 1 THEN "handled-fault-ended-the-run"
+  ELSE IF esc /\ \E i \in Faulty(cs) : LogsOnOwnLogger(L) /\ cs.steps[i].own = 0 THEN "not-logged-on-own-logger"
   ELSE IF \E i \in Faulty(cs) : cs.steps[i].own > 1 THEN "logged-more-than-once"
-  ELSE IF \E i \in Faulty(cs) : LogsOnOwnLogger(L) /\ cs.steps[i].integration > 0 THEN "logged-on-integration-logger"
-  ELSE IF \E i \in Faulty(cs) : ~LogsOnOwnLogger(L) /\ ~(cs.steps[i].own = 0 /\ cs.steps[i].integration = 1) THEN "deviation-not-as-described"
+  ELSE IF esc /\ \E i \in Faulty(cs) : LogsOnOwnLogger(L) /\ cs.steps[i].integration > 0 THEN "logged-on-integration-logger"
+  ELSE IF esc /\ \E i \in Faulty(cs) : ~LogsOnOwnLogger(L) /\ ~(cs.steps[i].own = 0 /\ cs.steps[i].integration = 1) THEN "deviation-not-as-described"
   ELSE IF \E i \in Faulty(cs) : cs.steps[i].module > cs.nmodfail THEN "module-load-error-logged-more-than-once"
   ELSE IF \E i \in 1..Len(cs.steps) : cs.steps[i].returned # TRUE \/ cs.steps[i].foreign > 0 THEN "propagated-into-home-assistant"
   ELSE IF \E i \in Benign(cs) : cs.steps[i].done # 1 THEN "trigger-stopped-serving"
   ELSE IF cs.by_other # 1 THEN (IF IsLoad(cs) THEN "load-error-disturbed-other-files" ELSE "others-disturbed")
-  ELSE IF ~IsLoad(cs) /\ cs.by_same # 1 THEN "others-disturbed"
-  ELSE IF IsLoad(cs) /\ (cs.main_loaded \/ cs.by_same # 0 \/ cs.left # 0) THEN "faulty-file-not-unloaded"
-  ELSE IF ~IsLoad(cs) /\ ~cs.main_loaded THEN "runtime-fault-unloaded-the-file"
+  ELSE IF ~(IsLoad(cs) /\ esc) /\ cs.by_same_min # 1 THEN "others-disturbed"
+  ELSE IF IsLoad(cs) /\ esc /\ (cs.main_loaded \/ cs.by_same_max # 0 \/ cs.left # 0) THEN "faulty-file-not-unloaded"
+  ELSE IF ~(IsLoad(cs) /\ esc) /\ ~cs.main_loaded THEN (IF IsLoad(cs) THEN "handled-load-fault-unloaded-the-file" ELSE "runtime-fault-unloaded-the-file")
   ELSE ""
 
 VARIABLE i
@@ -60,8 +75,8 @@ Report_(cs) ==
             ELSE IF ContainWhy(cs, {ContainFlags[1]}) = "" THEN <<ContainFlags[1]>> ELSE <<c0>>
       fw == IF ~CpyOK(cs) THEN <<"cpython-disagrees-with-the-specification">>
             ELSE IF ObsOK(cs, {}) THEN <<>>
-            ELSE IF Explaining(cs) = {} THEN <<"frames-differ">>
-            ELSE LET S == MinExplaining(cs) IN SelectSeq(FrameFlags, LAMBDA f : f \in S)
+            ELSE LET m == MinExplainingFrom(cs, 1) IN
+                 IF ~m[1] THEN <<"frames-differ">> ELSE SelectSeq(FrameFlags, LAMBDA f : f \in m[2])
   IN IF cw = <<>> /\ fw = <<>> THEN TRUE
      ELSE PrintT("REJECT " \o ToJson([id |-> cs.id, contain |-> cw, frames |-> fw,
                                       exp |-> [j \in 1..Len(cs.obs) |-> Expected(cs.units, cs.obs[j].start, {})],
